@@ -1315,7 +1315,10 @@ func selectLiteralStrategy(literals *literal.Seq, litAnalysis literalAnalysis) S
 	// Patterns with >32 literals exceed Teddy's capacity but Aho-Corasick handles
 	// thousands of patterns with O(n) matching time.
 	// Speedup: 50-500x by using dense array transitions (~1.6 GB/s throughput).
-	if litAnalysis.hasAhoCorasickLiterals && literals.AllComplete() {
+	// The automaton reports literal occurrences and nothing else: like Teddy it
+	// cannot stand in for a pattern with assertions (\d\d\b has 100 complete
+	// literals and must still reject "11F"), and it has no line-anchor wrapper.
+	if litAnalysis.hasAhoCorasickLiterals && literals.AllComplete() && !litAnalysis.hasAnchors {
 		return UseAhoCorasick
 	}
 
